@@ -106,6 +106,9 @@ def run(ctx):
     from .evalhelpers import cli_main_location_witness
     ctx.structural_or_witness(r2, structural, lambda: cli_main_location_witness(ctx), f"{main.module.relpath}::main::mkdir", both=True)
 
+    from .evalhelpers import cached_witness, report_witness, run_command_witness
+    report_witness(r2, "src/gwf/plugins/run.py::run::witness-project", "src/gwf/plugins/run.py:1", cached_witness(ctx, "run", run_command_witness),
+                   "a dry run submits nothing, records no hash, removes no log", select=lambda d: "dry" in d or "ends with" in d)
     r3 = ctx.rule("R3", "status, dry-run and run share one decision procedure; what is shown shouldrun/failed/cancelled is what is submitted", min_instances=5)
     from ..inline import inlined
     sw = idx.func("gwf.scheduling:submit_workflow")
